@@ -224,6 +224,32 @@ def jwsEncode (p : Pub) (kid nonce url : Bytes) (pl : Payload) (sg : SigScript) 
       | some sig => .ok alg hj payload digest sig
     | .ec _ _ _, .raw _ => .err      -- bytes that are not DER: asn1.Unmarshal fails
 
+/-- `json.Marshal(&jsonWebSignature{…})`: the flattened JWS JSON serialization that is sent -/
+def jwsJSON (phead payload sig : Bytes) : Bytes :=
+  jsonObj [(asc "protected", .str phead), (asc "payload", .str payload), (asc "signature", .str (b64Enc sig))]
+
+/-- the complete output of `jwsEncodeJSON` -/
+def Out.json : Out → Option Bytes
+  | .ok _ hj payload _ sig => some (jwsJSON (b64Enc hj) payload sig)
+  | _ => none
+
+/-! ## account key rollover (RFC 8555 §7.3.5, `accountKeyRollover`) -/
+
+/-- `json.Marshal(struct{Account string; OldKey json.RawMessage})` -/
+def rolloverPayload (kid : Bytes) (old : Pub) : Bytes :=
+  jsonObj [(asc "account", .str kid), (asc "oldKey", .raw (jwkEncode old))]
+
+/-- inner JWS: signed by the NEW key in JWK form, no nonce, `url` = keyChange -/
+def rolloverInner (old new : Pub) (kid url : Bytes) (sg : SigScript) : Out :=
+  jwsEncode new [] [] url (.json (rolloverPayload kid old)) sg
+
+/-- the body POSTed to keyChange: outer JWS by the OLD (account) key in KID form whose payload is the
+    base64url of the inner JWS JSON (a Go string, hence inserted as it is); none = an error, nothing sent -/
+def rollover (old new : Pub) (kid nonce url : Bytes) (sgInner sgOuter : SigScript) : Option Bytes :=
+  match (rolloverInner old new kid url sgInner).json with
+  | none => none
+  | some inner => (jwsEncode old kid nonce url (.str (b64Enc inner)) sgOuter).json
+
 /-! ## HS256 (external account binding) -/
 
 /-- `jwsWithMAC`: none = error (empty key); else (protected JSON, payload, signature bytes) -/
